@@ -17,8 +17,10 @@ Oracle (weakest reading of the statement; the object is what a truthful full GET
   O1  every URL contacted (request issued to the session) is accepted by the configured validator;
   O2  within one logical request (probe, plain GET, one range GET) at most ``max_redirects`` redirects are followed;
   O3  bytes pulled from one response <= max_fetch_bytes + one delivered piece; from a range response
-      <= requested range size + one delivered piece (pieces are the origin's delivery granularity, <= the
-      size asked for in ``read(n)``/``iter_chunked(n)``);
+      <= requested range size + one delivered piece; all ranges of one fetch attempt together (hedge duplicates
+      counted once, over-range bytes not counted twice) <= max_fetch_bytes + one piece (pieces are the origin's
+      delivery granularity, <= the size asked for in ``read(n)``/``iter_chunked(n)``: the scaled-down analogue of
+      the 64 KiB "bounded chunk");
   O4  the decoder called by the fetcher never produces more than max_decompressed_bytes + 64 KiB, and a
       returned body is never longer than max_decompressed_bytes;
   O5  the call returns exactly the decoded object or raises (a hang is neither).  Origins only lie in ways
@@ -301,6 +303,19 @@ def oracle(ctx: Ctx, script: dict[str, Any], x: V.Exec) -> Any:
             want = r.range[1] - r.range[0] + 1
             if r.pulled > want + r.maxpiece:
                 ctx.fail(f"overread-range:{r.cls}", f"{r.pulled} bytes pulled from a response to Range {r.range} ({want} bytes asked), piece={r.maxpiece}", rep)
+    # O3' the ranges of one fetch attempt together: in-range bytes pulled (hedge duplicates counted once) <= max_fetch_bytes + a piece
+    per_epoch: dict[int, dict[Any, int]] = {}
+    piece_max = 0
+    for r in o.requests:
+        if r.cls == "chunk" and r.range is not None and r.node >= 0:
+            want = r.range[1] - r.range[0] + 1
+            d = per_epoch.setdefault(r.epoch, {})
+            d[r.range] = max(d.get(r.range, 0), min(r.pulled, want))
+            piece_max = max(piece_max, r.maxpiece)
+    for _ep, d in per_epoch.items():
+        tot = sum(d.values())
+        if tot > maxf + piece_max:
+            ctx.fail("overread-total:parallel", f"{tot} bytes pulled over {len(d)} ranges in one fetch, max_fetch_bytes={maxf}, piece={piece_max}", rep)
     # O4 decoded bound
     for n_in, _cap, n_out in w["decodes"]:
         if n_out > maxd + 65536:
@@ -366,7 +381,9 @@ def _walk_specs(sec: dict[str, Any]) -> Iterator[dict[str, Any]]:
 # --------------------------------------------------------------------------------------
 # script grammar
 
-CFG_A = {"parallel_threshold_bytes": 8, "chunk_size_bytes": 4, "max_parallel_requests": 8, "max_fetch_bytes": 12, "max_redirects": 2,
+# families A/A2/A3 are pure fault enumerations: max_parallel_requests=1 serialises the range requests (one pending response
+# at a time, hence one schedule per script); arrival orders are family B's job, which sets its own max_parallel_requests
+CFG_A = {"parallel_threshold_bytes": 8, "chunk_size_bytes": 4, "max_parallel_requests": 1, "max_fetch_bytes": 12, "max_redirects": 2,
          "speculative_retry_multiplier": 2.0, "max_speculative_hedges": 4}
 FULL_URL = {"userinfo": True, "query": True, "fragment": True}
 EXCS = ("reset", "disc", "timeout", "readtimeout", "totaltimeout", "invalidurl", "oserror", "generic")
@@ -458,7 +475,7 @@ def chains(quick: bool) -> list[tuple[str, dict[str, Any]]]:
 def family_a(ctx: Ctx) -> Iterator[tuple[dict[str, Any], list[tuple[str, dict[str, Any]]]]]:
     """Yields (base script, data variants): one top-level item per (url kind, object, chain, probe)."""
     q = ctx.quick
-    sizes = (5, 10, 13, 40) if q else (5, 8, 10, 12, 13, 40)
+    sizes = (5, 10, 13, 20, 40) if q else (5, 8, 10, 12, 13, 16, 20, 40)
     for kind in ("head", "presigned"):
         for n in sizes:
             probes = (head_probes if kind == "head" else range_probes)(n, CFG_A["max_fetch_bytes"], CFG_A["parallel_threshold_bytes"], q)
@@ -618,7 +635,7 @@ def family_b(ctx: Ctx) -> Iterator[tuple[dict[str, Any], list[tuple[str, dict[st
                 for par in (8, 2, 1):
                     if mult == 0.0 and hedges == 1:
                         continue
-                    yield mk("honest", n, {}, None, "honest", mult=mult, hedges=hedges, par=par, hold=not (q and par != 8)), dvar
+                    yield mk("honest", n, {}, None, "honest", mult=mult, hedges=hedges, par=par, hold=True), dvar
     if not q:
         for kind in ("head", "presigned"):
             for mult in (2.0, 0.5):
@@ -637,12 +654,10 @@ def family_b(ctx: Ctx) -> Iterator[tuple[dict[str, Any], list[tuple[str, dict[st
     ranges10 = ("0-3", "4-7", "8-9")
     for fname, fault, lie in CHUNK_FAULTS:
         for ri, rkey in enumerate(ranges10):
-            if q and ri == 1 and fname not in ("st404", "short", "shift", "stall"):
-                continue
             for scope in ("", "#0"):
                 retrying = fname in ("exc-reset", "exc-disc", "mid-reset")  # fetch_url retries the whole fetch: two explorations multiply
                 for mult in ((0.5,) if q else (0.5, 2.0)):
-                    hold = not retrying and not (q and scope == "#0")
+                    hold = not retrying
                     dts: tuple[float, ...] = (0,) if retrying else (0, D)
                     yield mk(f"{fname}@{rkey}{scope}", 10, {rkey + scope: fault}, lie, fname, mult=mult, dts=dts, hold=hold), dvar
         if not q:
@@ -718,7 +733,10 @@ def run_script(ctx: Ctx, script: dict[str, Any]) -> tuple[dict[str, int], set[st
         if outcome[0] == "parallel":
             ctx.extra["parallel_path_executions"] += 1
 
-    st = V.explore(ctx, ex, chk, label=script["name"], state_keys=lambda w: w["keys"], count=count)
+    # the cap never fires on the pinned tree (largest script: 3116 quick / 13924 thorough schedules); it keeps the run
+    # finite on a changed tree that issues more requests than the scripts anticipate
+    st = V.explore(ctx, ex, chk, label=script["name"], state_keys=lambda w: w["keys"], count=count,
+                   max_execs=20000 if ctx.quick else 60000)
     return st, consulted
 
 
